@@ -8,7 +8,11 @@ Tie: E-SHIM.  The real lock code of /repo runs under the controlled scheduler.
                                  `Slp.Mx` / `Slp.Rw`
   queuing_rw_mutex               instrumented queuing_rw_mutex.cpp; holder-bookkeeping event log validated against the
                                  proven specification machine `QRwSpec` (its node protocol is NOT modelled: partial)
-  speculative_spin_(rw_)mutex    fall-back path only (no RTM here): ghost-holder monitors + deadlock detection
+  speculative_spin_rw_mutex      instrumented rtm_rw_mutex.cpp with speculation switched off: accesses to the spin_rw_mutex word and to
+                                 write_flag replayed on `Rtm` (Model/C08R.lean); write_flag monitor (a holding real writer => write_flag);
+                                 the speculative paths (hardware transactions cannot be scheduled) are modelled abstractly and tied by
+                                 source-text obligations regenerated on every run
+  speculative_spin_mutex         rtm_mutex.cpp with speculation off: m_flag accesses replayed on `Spin`; source-text obligations
 All families: independent ghost-holder monitors in the harness, deadlock (= lost hand-off / lost wake-up) detection,
 random schedules; bounded-preemption DFS for the component scenarios.  The memory orders executed by every acquiring /
 releasing access are regenerated from the traces into Generated/C08.lean (`orders`) and checked by `rw_orders_publish`."""
@@ -158,6 +162,92 @@ def validate_qrw(run):
     return None
 
 
+ORD_GE = {"rlx": {"rlx", "cns", "acq", "rel", "acqrel", "sc"}, "acq": {"acq", "acqrel", "sc"}, "rel": {"rel", "acqrel", "sc"},
+          "acqrel": {"acqrel", "sc"}, "sc": {"sc"}}
+
+
+def replay_qrwn(run, nthreads, cover=None):
+    """queuing_rw_mutex NODE PROTOCOL: every access to q_tail / my_prev / my_next / my_state / my_going / my_internal_lock is fed to
+    the Lean model `QRwN` (Model/C08N.lean), which commits its next step of that thread only if it is the same access (kind, variable
+    incl. the owning node, value read / written / expected / desired with the tag bit, CAS outcome); memory order at least the
+    model's; an unmatched plain load of the implementation is tolerated (counted); results, final state, the per-thread sequence of
+    specification events (enq at the q_tail exchange, grant / tryOk / tryFail / upgEnd at the returning access, rel / upgBegin /
+    downgrade at the first access) and the model's own holder count (exclusion on the model side) are compared as well.
+    Returns (difference or None, model specification events in model order)."""
+    lines = ["reset"] + ["prog " + " ".join(run["eff"].get(t, [])) for t in range(nthreads)]
+    lines += ["e %d %s %s %s %s %s" % (t, k, var, a, b, ok) for (t, k, var, order, a, b, ok) in run["ev"]] + ["state"]
+    out = drv("c08qrwn", "\n".join(lines) + "\n")[1 + nthreads:]
+    last, specs, mspec = {}, {}, []
+    check_inv = not any("upgrade" in ops_ for ops_ in run["eff"].values())      # the invariant is the one of programs without upgrade_to_writer
+    for i, (t, k, var, order, a, b, ok) in enumerate(run["ev"]):
+        o = out[i]
+        if o.startswith("ok "):
+            parts = o.split(" | ")
+            hd = parts[0].split()
+            if order not in ORD_GE.get(hd[1], ()):
+                return "event %d of thread %d: %s %s executed with memory order %s, weaker than the model's %s (pc %s)" % (i, t, k, var, order, hd[1], hd[2]), mspec
+            if cover is not None:
+                cover[hd[2]] = cover.get(hd[2], 0) + 1
+            last[t] = parts[1].split()
+            if parts[2].strip():
+                evs = [x.strip() for x in parts[2].split(";")]
+                specs.setdefault(t, []).extend(evs)
+                mspec.extend(evs)
+            nw, nr = map(int, parts[3].split())
+            if nw > 1 or (nw and nr):
+                return "event %d of thread %d: the MODEL has %d writers and %d readers holding" % (i, t, nw, nr), mspec
+            if check_inv and len(parts) > 4 and parts[4].split()[1:] not in ([], ["-"]):
+                return ("event %d of thread %d: clause(s) %s of the invariant proved for the model (Model/C08NInv.lean) do not hold in the model state "
+                        "reached by replaying the implementation's trace" % (i, t, parts[4].split()[1:])), mspec
+        elif o.startswith("MISMATCH") and k == "load":
+            if cover is not None:
+                cover["(unmatched implementation load)"] = cover.get("(unmatched implementation load)", 0) + 1
+        else:
+            return "event %d of thread %d: implementation %s %s %s %s ok=%s, model: %s" % (i, t, k, var, a, b, ok, o), mspec
+    d = finished_ok(run, last, nthreads)
+    if d:
+        return d, mspec
+    st = out[len(run["ev"])].split("|")
+    if st[0].split() != ["0", "0", "0"] or st[1].split():
+        return "model ends with q_tail bad misuse | q = %s" % out[len(run["ev"])], mspec
+    impl = {}
+    for v in run["v"]:
+        impl.setdefault(int(v.split()[1]), []).append(v)
+    for t in range(nthreads):
+        if impl.get(t, []) != specs.get(t, []):
+            return "thread %d specification events: implementation %s, model %s" % (t, impl.get(t), specs.get(t)), mspec
+    return None, mspec
+
+
+def replay_rtm(run, nthreads):
+    """speculative_spin_rw_mutex (rtm_rw_mutex.cpp), REAL paths (speculation forced off): every access to the underlying spin_rw_mutex
+    word and to write_flag is fed to the Lean model `Rtm` (Model/C08R.lean), which commits its next step of that thread only if it is the
+    same access (kind, variable, values, CAS outcome).  The model's own holder counts and write_flag are checked after every step (no two
+    real writers, no real writer with a real reader, a holding real writer implies write_flag)."""
+    lines = ["reset"] + ["prog " + " ".join(run["eff"].get(t, [])) for t in range(nthreads)]
+    lines += ["e %d %s %s %s %s %s" % (t, k, var, a, "0" if k == "load" else b, ok) for (t, k, var, order, a, b, ok) in run["ev"]] + ["state"]
+    out = drv("c08rtm", "\n".join(lines) + "\n")[1 + nthreads:]
+    last = {}
+    for i, (t, k, var, order, a, b, ok) in enumerate(run["ev"]):
+        o = out[i]
+        if o.startswith("ok "):
+            parts = o.split(" | ")
+            last[t] = parts[1].split()
+            nw, nr, ntr, ntw, fl = map(int, parts[2].split())
+            if nw > 1 or (nw and nr) or (nw and not fl):
+                return "event %d of thread %d: the MODEL has %d real writers, %d real readers, write_flag = %d" % (i, t, nw, nr, fl)
+        elif o.startswith("MISMATCH") and k == "load":
+            pass
+        else:
+            return "event %d of thread %d: implementation %s %s %s %s ok=%s, model: %s" % (i, t, k, var, a, b, ok, o)
+    d = finished_ok(run, last, nthreads)
+    if d:
+        return d
+    if out[len(run["ev"])].split() != ["0", "0", "0", "0"]:
+        return "model ends with m_state bad write_flag misuse = %s" % out[len(run["ev"])]
+    return None
+
+
 # --------------------------------------------------------------------------------------------------
 # scenarios
 # --------------------------------------------------------------------------------------------------
@@ -196,6 +286,30 @@ QRW_CORPUS = [
     [["acquire_r", "upgrade", "downgrade", "upgrade", "release"], ["try_w", "release", "acquire_r", "release"], ["acquire_r", "upgrade", "release"]],
     [["acquire_r", "release"], ["acquire_w", "release"], ["try_r", "upgrade", "release"], ["acquire_r", "upgrade", "release"]],
 ]
+# queuing_rw_mutex node protocol: a reader unlinking from the middle of the queue while its predecessor and its successor release /
+# upgrade; upgrades racing with other readers' release and upgrade; downgrade with readers / an upgrader queued behind
+R_ = ["acquire_r", "release"]
+QRWN_CORPUS = QRW_CORPUS + [
+    [R_, R_, R_],
+    [R_, R_, R_, R_],
+    [R_ + R_, R_, R_, ["acquire_w", "release"]],
+    [["acquire_r", "upgrade", "release"], R_, R_],
+    [["acquire_r", "upgrade", "release"], ["acquire_r", "upgrade", "release"], ["acquire_r", "upgrade", "release"]],
+    [["acquire_r", "upgrade", "release"], R_, ["acquire_r", "upgrade", "release"], R_],
+    [["acquire_w", "downgrade", "release"], R_, R_],
+    [["acquire_w", "downgrade", "upgrade", "release"], ["acquire_r", "upgrade", "release"], R_],
+    [["acquire_w", "downgrade", "release"], ["acquire_r", "upgrade", "downgrade", "release"], ["try_r", "release", "acquire_r", "release"]],
+]
+# speculative_spin_rw_mutex, real paths: several real writers queueing on the underlying lock while one releases / downgrades (the
+# window in which write_flag must stay raised for the next writer), upgrades, try-acquires
+W_ = ["acquire_w", "release"]
+RTM_CORPUS = QRW_CORPUS + [
+    [W_ + W_, W_ + W_],
+    [W_, W_, W_],
+    [["acquire_w", "downgrade", "release"], W_, W_],
+    [["acquire_r", "upgrade", "release"], W_, ["try_w", "release", "acquire_w", "release"]],
+]
+SPIN_OF = {"acquire_w": "lock", "acquire_r": "lock", "try_w": "try_lock", "try_r": "try_lock", "release": "unlock"}
 # sleeping locks: `work` (12 writes to an unrelated atomic) keeps spinning waiters iterating until they go to sleep
 SMX_CORPUS = [
     [["lock"] + W8 + ["unlock"]] * 3,
@@ -234,9 +348,9 @@ FAMILIES = {
     "queuing_mutex": ("qm", lambda: build_hdr("qm", "harness/c08/qm.cpp"), QM_OPS, QM_CORPUS, 6, "mcs"),
     "mutex": ("slpmx", lambda: build_rt("slpmx", "harness/c08/slp.cpp", ["-D__TBB_BUILD"], ["address_waiter.cpp"]), MX_OPS + ["work"], SMX_CORPUS, 7, "slp:c08mx"),
     "rw_mutex": ("slprw", lambda: build_rt("slprw", "harness/c08/slp.cpp", ["-D__TBB_BUILD", "-DRWM"], ["address_waiter.cpp"]), RW_OPS + ["work", "work"], SRW_CORPUS, 8, "slp:c08rwm"),
-    "queuing_rw_mutex": ("qrw", lambda: build_rt("qrw", "harness/c08/qrw.cpp"), QRW_OPS, QRW_CORPUS, 6, "qrw"),
-    "speculative_spin_rw_mutex": ("specrw", lambda: build_rt("specrw", "harness/c08/qrw.cpp", ["-DSPEC_RW", "-mrtm"]), QRW_OPS, QRW_CORPUS, 6, "mon"),
-    "speculative_spin_mutex": ("specmx", lambda: build_rt("specmx", "harness/c08/qrw.cpp", ["-DSPEC_MX", "-mrtm"]), QRW_OPS, QRW_CORPUS, 6, "mon"),
+    "queuing_rw_mutex": ("qrw", lambda: build_rt("qrw", "harness/c08/qrw.cpp"), QRW_OPS, QRWN_CORPUS, 6, "qrw"),
+    "speculative_spin_rw_mutex": ("specrw", lambda: build_rt("specrw", "harness/c08/qrw.cpp", ["-DSPEC_RW", "-mrtm"]), QRW_OPS, RTM_CORPUS, 6, "rtm"),
+    "speculative_spin_mutex": ("specmx", lambda: build_rt("specmx", "harness/c08/qrw.cpp", ["-DSPEC_MX", "-mrtm"]), QRW_OPS, QRW_CORPUS, 6, "rtmmx"),
 }
 
 
@@ -313,6 +427,130 @@ def measure_spin(runs):
     return best
 
 
+def _strip_comments(src):
+    src = re.sub(r"/\*.*?\*/", " ", src, flags=re.S)
+    src = re.sub(r"//[^\n]*", " ", src)
+    # assertions are compiled out of the release build and do not belong to the protocol
+    out, i = "", 0
+    while True:
+        j = src.find("__TBB_ASSERT", i)
+        if j < 0:
+            return out + src[i:]
+        out += src[i:j]
+        k = src.find("(", j)
+        depth = 0
+        while k < len(src):
+            if src[k] == "(":
+                depth += 1
+            elif src[k] == ")":
+                depth -= 1
+                if depth == 0:
+                    break
+            k += 1
+        i = src.find(";", k) + 1
+
+
+def _body(src, sig):
+    """text between the braces of the first function whose header matches the regex `sig`"""
+    m = re.search(sig, src)
+    if not m:
+        return ""
+    i = src.find("{", m.end())
+    depth, k = 0, i
+    while k < len(src):
+        if src[k] == "{":
+            depth += 1
+        elif src[k] == "}":
+            depth -= 1
+            if depth == 0:
+                return src[i + 1:k]
+        k += 1
+    return ""
+
+
+def _case(body, label):
+    """statements of `case ...label: ... break;` inside a switch body (up to the first break / return after the label)"""
+    m = re.search(r"case\s+[\w:]*" + label + r"\s*:", body)
+    if not m:
+        return ""
+    rest = body[m.end():]
+    e = re.search(r"\bbreak\s*;|\bcase\s+[\w:]+\s*:\s*(?!\s*case)|\bdefault\s*:", rest)
+    # a label that only stacks onto the next one (case A: case B: ...) shares the following statements
+    stacked = re.match(r"\s*case\s+[\w:]+\s*:", rest)
+    if stacked:
+        return _case(body[m.end():], re.match(r"\s*case\s+[\w:]*?(\w+)\s*:", rest).group(1))
+    return rest[:e.start()] if e else rest
+
+
+def _before(txt, a, b):
+    """both patterns occur and the first occurrence of `a` precedes the first occurrence of `b`"""
+    ma, mb = re.search(a, txt), re.search(b, txt)
+    return bool(ma and mb and ma.start() < mb.start())
+
+
+def rtm_source_facts():
+    """facts about the text of rtm_rw_mutex.cpp / rtm_mutex.cpp that the model of the SPECULATIVE paths (Model/C08R.lean) rests on —
+    these paths cannot run under the shim — and the statement order of the real paths (also checked by the trace replay)"""
+    facts = []
+    try:
+        rw = _strip_comments(open(os.path.join(REPO, "src/tbb/rtm_rw_mutex.cpp")).read())
+        mx = _strip_comments(open(os.path.join(REPO, "src/tbb/rtm_mutex.cpp")).read())
+    except OSError as e:
+        return [("sources readable (%s)" % e, False)]
+    def CALL(name):                                      # `m.name()` or `s.m_mutex->name()`: the receiver spelling is irrelevant
+        return r"(?:->|\.)\s*%s\s*\(\s*\)" % name
+    FL_T, FL_F = r"write_flag\s*(?:\.\s*store\s*\(|=)\s*true", r"write_flag\s*(?:\.\s*store\s*\(|=)\s*false"
+    FL_ST = r"write_flag\s*\.\s*store|write_flag\s*=[^=]|write_flag\s*\.\s*exchange"
+    aw = _body(rw, r"static\s+void\s+acquire_writer\s*\(")
+    ar = _body(rw, r"static\s+void\s+acquire_reader\s*\(")
+    rel = _body(rw, r"static\s+void\s+release\s*\(")
+    upg = _body(rw, r"static\s+bool\s+upgrade\s*\(")
+    dg = _body(rw, r"static\s+bool\s+downgrade\s*\(")
+    tw = _body(rw, r"static\s+bool\s+try_acquire_writer\s*\(")
+    aw_real = aw[aw.rfind("only_speculate"):]            # after the last `if(only_speculate) return;`
+    def txblock(body):                                   # the block entered when begin_transaction() succeeded, up to its return
+        m = re.search(r"begin_transaction\s*\(\s*\)\s*\)\s*==", body)
+        if not m:
+            return ""
+        rest = body[m.end():]
+        e = re.search(r"\breturn\s*;", rest)
+        return rest[:e.end()] if e else rest
+    facts.append(("rtm_rw acquire_writer, real path: m.lock() precedes write_flag.store(true)", _before(aw_real, CALL("lock"), FL_T)))
+    facts.append(("rtm_rw acquire_writer, real path: the lock becomes rtm_real_writer (scoped_lock-local state) after m.lock()", _before(aw_real, CALL("lock"), r"rtm_real_writer")))
+    facts.append(("rtm_rw acquire_writer, speculative path: m_state is read inside the transaction and a non-zero value aborts it",
+                  _before(txblock(aw), r"m_state\s*\.\s*load\s*\(", r"abort_transaction\s*\(") and _before(txblock(aw), r"abort_transaction\s*\(", r"rtm_transacting_writer")))
+    facts.append(("rtm_rw acquire_reader, speculative path: write_flag is read inside the transaction and `true` aborts it",
+                  _before(txblock(ar), r"write_flag\s*\.\s*load\s*\(", r"abort_transaction\s*\(") and _before(txblock(ar), r"abort_transaction\s*\(", r"rtm_transacting_reader")))
+    facts.append(("rtm_rw acquire_reader, real path: lock_shared() and no store to write_flag",
+                  bool(re.search(CALL("lock_shared"), ar)) and not re.search(FL_ST, ar)))
+    tx_rel = _case(rel, "rtm_transacting_writer") or _case(rel, "rtm_transacting_reader")
+    facts.append(("rtm_rw release of a transacting holder: end_transaction() and no store / unlock",
+                  bool(re.search(r"end_transaction\s*\(", tx_rel)) and not re.search(r"\.\s*store\s*\(|unlock", tx_rel)))
+    facts.append(("rtm_rw release of a real writer: write_flag.store(false) precedes m.unlock()",
+                  _before(_case(rel, "rtm_real_writer"), FL_F, CALL("unlock"))))
+    facts.append(("rtm_rw release of a real reader: unlock_shared() and no store to write_flag",
+                  bool(re.search(CALL("unlock_shared"), _case(rel, "rtm_real_reader"))) and not re.search(FL_ST, _case(rel, "rtm_real_reader"))))
+    facts.append(("rtm_rw upgrade of a real reader: m.upgrade() precedes write_flag.store(true)",
+                  _before(_case(upg, "rtm_real_reader"), CALL("upgrade"), FL_T)))
+    facts.append(("rtm_rw upgrade of a transacting reader: m_state is read (joins the read set) before it becomes a transacting writer",
+                  _before(_case(upg, "rtm_transacting_reader"), r"m_state\s*\.\s*load\s*\(", r"rtm_transacting_writer")))
+    facts.append(("rtm_rw downgrade of a real writer: write_flag.store(false) precedes m.downgrade()",
+                  _before(_case(dg, "rtm_real_writer"), FL_F, CALL("downgrade"))))
+    facts.append(("rtm_rw downgrade of a transacting writer: no store", not re.search(r"\.\s*store\s*\(", _case(dg, "rtm_transacting_writer"))))
+    facts.append(("rtm_rw try_acquire_writer: write_flag.store(true) only after m.try_lock() succeeded", _before(tw, r"if\s*\(\s*(?:m\s*\.|[\w\.]+\s*->)\s*try_lock\s*\(\s*\)\s*\)", FL_T)))
+    facts.append(("rtm_rw: write_flag is stored at exactly five places (acquire_writer, try_acquire_writer, upgrade: true; release, downgrade: false)",
+                  len(re.findall(FL_T, rw)) == 3 and len(re.findall(FL_F, rw)) == 2 and len(re.findall(FL_ST, rw)) == 5))
+    ma = _body(mx, r"static\s+void\s+acquire\s*\(")
+    mrel = _body(mx, r"static\s+void\s+release\s*\(")
+    facts.append(("rtm_mutex acquire, speculative path: m_flag is read inside the transaction and `true` aborts it",
+                  _before(txblock(ma), r"m_flag\s*\.\s*load\s*\(", r"abort_transaction\s*\(") and _before(txblock(ma), r"abort_transaction\s*\(", r"rtm_transacting")))
+    facts.append(("rtm_mutex release of a transacting holder: end_transaction() and no store / unlock",
+                  bool(re.search(r"end_transaction\s*\(", _case(mrel, "rtm_transacting"))) and not re.search(r"\.\s*store\s*\(|unlock", _case(mrel, "rtm_transacting"))))
+    facts.append(("rtm_mutex real path: acquire ends in m.lock(), release of a real holder is m.unlock()",
+                  bool(re.search(CALL("lock"), ma[ma.rfind("only_speculate"):])) and bool(re.search(CALL("unlock"), _case(mrel, "rtm_real")))))
+    return facts
+
+
 def gen(ck, exes):
     exe = cxx_build("C08", "consts", ["harness/c08/consts.cpp"], flags=["-O0", "-fno-access-control"])
     rc, out, err = sh([exe], timeout=60)
@@ -337,7 +575,16 @@ def gen(ck, exes):
     body += "/-- (lock kind, variable, access kind, std::memory_order executed, role: 1 acquiring / 2 releasing), from the E-SHIM traces -/\n"
     body += "def orders : List (String × String × String × Nat × Nat) := [\n" + ",\n".join(
         '  ("%s", "%s", "%s", %d, %d)' % e for e in sorted(table)) + "]\n"
+    facts = rtm_source_facts()
+    ck.extra["rtm_source_facts"] = facts
+    body += ("/-- facts about the source text of rtm_rw_mutex.cpp / rtm_mutex.cpp (statement order of the real paths, what the speculative paths read inside\n"
+             "the transaction, that a speculative release commits without storing), re-extracted on every run -/\n")
+    body += "def rtmSrc : List (String × Bool) := [\n" + ",\n".join('  ("%s", %s)' % (n.replace('"', "'"), "true" if v else "false") for n, v in facts) + "]\n"
     gen_write("C08", body)
+    badf = [n for n, v in facts if not v]
+    ck.oblige("gen:rtm source text: order of m.lock() / write_flag stores on the real paths, reads inside the transaction on the speculative paths, "
+              "commit without store (Lean: rtm_source_obligations over Generated.C08.rtmSrc)", "generated", not badf,
+              "" if not badf else "no longer as modelled: %s" % badf)
     weak = [e for e in sorted(table) if (e[4] == 2 and e[3] not in (3, 4, 5)) or (e[4] == 1 and e[3] not in (2, 4, 5))]
     ck.oblige("gen:orders every releasing access is release-or-stronger and every acquiring access acquire-or-stronger "
               "(Lean: rw_orders_publish over Generated.C08.orders)", "generated", not weak,
@@ -360,13 +607,26 @@ def run_family(ck, name, exe, spin):
     quick = ck.tier == "quick"
     heavy = kind.startswith("slp")
     nsc = (10 if heavy else 25) if quick else (45 if heavy else 140)
+    if kind in ("qrw", "rtm", "rtmmx"):
+        nsc = 12 if quick else 70         # these families have the larger hand-written corpora and the costlier replays
     scs = corpus + scenarios(ck.rng, ops, nsc, maxlen)
     nrand = (12 if heavy else 30) if quick else (50 if heavy else 110)
-    bad_corr, bad_mon = [], []
+    if kind in ("qrw", "rtm", "rtmmx"):
+        nrand = 20 if quick else 80
+    bad_corr, bad_mon, bad_node, cover = [], [], [], {}
     nruns = slept = 0
+    # the speculative variants: the REAL paths are replayed with speculation switched off in the harness (C08_NOSPEC); the contention
+    # scenarios additionally run once with whatever the hardware does (monitors only, as before)
+    env = dict(os.environ, C08_NOSPEC="1") if kind in ("rtm", "rtmmx") else None
+    if env:
+        for si, sc in enumerate(corpus[:4]):
+            rc, out, err = sh([exe, "rand", str(ck.seed * 1000 + 500 + si), "6"], input=prog_text(sc), timeout=600)
+            for r in parse_runs(out):
+                if r["mon"] != "ok":
+                    bad_mon.append((sc, dict(r, env="")))
     for si, sc in enumerate(scs):
         nr = nrand * 2 if (heavy and si < len(corpus)) else nrand
-        rc, out, err = sh([exe, "rand", str(ck.seed * 1000 + si), str(nr)], input=prog_text(sc), timeout=600)
+        rc, out, err = sh([exe, "rand", str(ck.seed * 1000 + si), str(nr)], input=prog_text(sc), timeout=600, env=env)
         runs = parse_runs(out)
         for r in runs:
             nruns += 1
@@ -382,8 +642,24 @@ def run_family(ck, name, exe, spin):
             elif kind.startswith("slp:"):
                 d = replay_slp(kind[4:], r, len(sc), spin)
                 slept += any(e[2] == "cnt" and e[1] == "store" for e in r["ev"])
+            elif kind in ("rtm", "rtmmx") and (r["mon"] != "ok" or len(r["ev"]) > 60000):
+                d = None
+            elif kind == "rtm":
+                d = replay_rtm(r, len(sc))
+            elif kind == "rtmmx":
+                d = replay_word("c08spin", dict(r, eff={t: [SPIN_OF[o] for o in ops_] for t, ops_ in r["eff"].items()}), len(sc))
+            elif kind == "qrw" and (r["mon"] != "ok" or len(r["ev"]) > 60000):
+                # a run that deadlocked / spun to the step limit: the monitor verdict is the finding; its (huge) trace is not replayed
+                d = None
             elif kind == "qrw":
                 d = validate_qrw(r)
+                dn, mspec = replay_qrwn(r, len(sc), cover)
+                if not dn and mspec:
+                    # executable side of the refinement claim: the specification events of the MODEL's steps, in model order, are a run of QRwSpec
+                    dn = validate_qrw({"v": mspec})
+                    dn = dn and "model specification events: " + dn
+                if dn:
+                    bad_node.append((sc, r, dn))
             if kind != "mon":
                 ck.traces_validated += 1
                 if d:
@@ -399,8 +675,8 @@ def run_family(ck, name, exe, spin):
     dfs_runs = dfs_starved = 0
     if not heavy:
         for sc in corpus[: (3 if quick else len(corpus))]:
-            cap = ("8000" if kind in ("qrw", "mon") else "20000") if quick else ("50000" if kind in ("qrw", "mon") else "200000")
-            rc, out, err = sh([exe, "dfs", "2" if quick else "3", cap], input=prog_text(sc), timeout=1500)
+            cap = ("5000" if kind in ("qrw", "mon", "rtm", "rtmmx") else "20000") if quick else ("50000" if kind in ("qrw", "mon", "rtm", "rtmmx") else "200000")
+            rc, out, err = sh([exe, "dfs", "2" if quick else "3", cap], input=prog_text(sc), timeout=1500, env=env)
             m = re.search(r"summary runs=(\d+) bad=(\d+)", out)
             if m:
                 dfs_runs += int(m.group(1))
@@ -422,44 +698,103 @@ def run_family(ck, name, exe, spin):
     what = {"word": "atomic-access trace replays on the Lean model (accesses, values, results)",
             "mcs": "q_tail / m_next / m_going access trace replays on `Mcs` (accesses, values, CAS outcomes, results, FIFO logs)",
             "slp": "lock-word accesses and sleep/wake hand-shake (enqueue, predicate, epoch check, P/V, flush) replay on the Lean model",
+            "rtm": "REAL paths (speculation off): every access to the spin_rw_mutex word and to write_flag replays on the Lean model `Rtm` (accesses, values, results)",
+            "rtmmx": "REAL path (speculation off): every access to m_flag replays on the Lean model `Spin`",
             "qrw": "holder-bookkeeping event log is accepted by the proven specification machine QRwSpec"}.get(kind.split(":")[0])
     if what:
         ck.oblige("corr:%s %s" % (name, what), "correspondence", not bad_corr,
                   "" if not bad_corr else "%s | scenario %s | sched %s" % (bad_corr[0][2], bad_corr[0][0], " ".join(bad_corr[0][1]["sched"])))
+    if kind == "qrw":
+        ck.oblige("corr:%s every access to q_tail / my_prev / my_next / my_state / my_going / my_internal_lock replays on the node-protocol model "
+                  "`QRwN` (accesses, owning node, values with the tag bit, CAS outcomes, memory orders, results, specification events)" % name,
+                  "correspondence", not bad_node,
+                  "" if not bad_node else "%s | scenario %s | sched %s" % (bad_node[0][2], bad_node[0][0], " ".join(bad_node[0][1]["sched"])))
+        need = ["rrXchgNP", "rrCasP", "rrRelP", "rrCasT", "rhXchgP", "rwXchgP", "rwLoser", "uFaddN", "uXchgP", "uLoopS", "uTryP", "uCasPS", "uSetG",
+                "dCas", "dGo", "arCasU", "arGo", "rUnb"]
+        miss = [p for p in need if p not in cover]
+        ck.oblige("corr:%s the replayed runs exercise the middle-reader unlink, the flagged-pointer hand-overs, upgrade and downgrade paths" % name,
+                  "correspondence", not miss, "model program counters never reached: %s" % miss if miss else "")
+        ck.extra["qrwn_pc_coverage"] = dict(sorted(cover.items()))
+    bad_spec = list(bad_corr)
+    if kind == "qrw":
+        bad_corr = bad_corr + bad_node
     if heavy:
         ck.oblige("corr:%s some explored runs really put a thread to sleep" % name, "correspondence", slept > 0, "%d of %d" % (slept, nruns))
-    ck.oblige("monitor:%s exclusion / reader-writer rule / truthful try+upgrade / queue order / no deadlock (random%s)" % (name, "" if heavy else " + bounded-preemption DFS"),
+    ck.oblige("monitor:%s exclusion / reader-writer rule / truthful try+upgrade / queue order / no deadlock / critical sections of consecutive holders ordered by happens-before under the memory orders the code passed (random%s)" % (name, "" if heavy else " + bounded-preemption DFS"),
               "correspondence", not bad_mon, "" if not bad_mon else "%s | scenario %s" % (bad_mon[0][1]["mon"], bad_mon[0][0]))
     cex = bad_mon[:1]
     if not cex and bad_corr:
         # the correspondence broke but the monitors are quiet: search harder for a property failure on the implementation
-        cex = search(ck, name, exe, [b[0] for b in bad_corr[:3]] + corpus)
-        if not cex and kind == "qrw":
-            sc, r, d = bad_corr[0]      # a rejected event IS a property failure of the implementation (safety / queue order / truthfulness of the spec)
+        cex = search(ck, name, exe, [b[0] for b in bad_corr[:3]] + corpus, env)
+        if not cex and kind == "qrw" and bad_spec:
+            sc, r, d = bad_spec[0]      # a rejected event IS a property failure of the implementation (safety / queue order / truthfulness of the spec)
             ck.counterexample("%s:spec-rejects" % name, "%s: %s under schedule %s" % (name, d, " ".join(r["sched"])),
                               {"engine": "E-SHIM", "lock": name, "scenario": sc, "schedule": r["sched"], "monitor": d, "events": r["v"]})
     for sc, r in cex:
         ck.counterexample("%s:%s" % (name, r["mon"].split(" ")[0] if r["mon"] else "?"),
                           "%s: %s under schedule %s" % (name, r["mon"], " ".join(r["sched"])),
                           {"engine": "E-SHIM", "lock": name, "scenario": sc, "schedule": r["sched"], "monitor": r["mon"],
-                           "rerun": r.get("rerun"), "trace": (r.get("ev") or r.get("v") or [])[:200]})
+                           "env": r.get("env", "nospec"), "rerun": r.get("rerun"), "trace": (r.get("ev") or r.get("v") or [])[:200]})
     return bad_corr, bad_mon
 
 
-def search(ck, name, exe, scs):
+def search(ck, name, exe, scs, env=None):
     """failing-input search: more random schedules (and DFS for the component harnesses) on the given scenarios"""
     heavy = FAMILIES[name][5].startswith("slp")
+    quick = ck.tier == "quick"
+    if quick:
+        scs = scs[:5]
     for si, sc in enumerate(scs):
-        rc, out, err = sh([exe, "rand", str(ck.seed * 7 + 900 + si), "400" if heavy else "1500"], input=prog_text(sc), timeout=900)
+        rc, out, err = sh([exe, "rand", str(ck.seed * 7 + 900 + si), ("150" if quick else "400") if heavy else ("400" if quick else "1500")], input=prog_text(sc), timeout=900, env=env)
         for r in parse_runs(out):
             if r["mon"] != "ok":
                 return [(sc, r)]
         if not heavy:
-            rc, out, err = sh([exe, "dfs", "3", "200000"], input=prog_text(sc), timeout=900)
+            rc, out, err = sh([exe, "dfs", "3", "30000" if quick else "200000"], input=prog_text(sc), timeout=900, env=env)
             rs = parse_runs(out)
             if rs and rs[-1]["mon"] != "ok":
                 return [(sc, rs[-1])]
     return []
+
+
+EXPLORE_QUICK = [
+    [["acquire_r", "release"], ["acquire_r", "release"], ["acquire_w", "release"]],
+    [["acquire_r", "upgrade", "release"], ["acquire_r", "upgrade", "release"]],
+    [["acquire_w", "downgrade", "release"], ["acquire_w", "release"], ["acquire_r", "release"]],
+]
+EXPLORE_THOROUGH = EXPLORE_QUICK + [
+    [["acquire_r", "release"], ["acquire_r", "release"], ["acquire_r", "release"]],
+    [["acquire_w", "downgrade", "release"], ["acquire_r", "release"], ["acquire_r", "release"]],
+    [["try_r", "release", "acquire_r", "release"], ["try_w", "release"], ["acquire_r", "release"]],
+    [["acquire_r", "upgrade", "release"], ["acquire_r", "release"], ["acquire_r", "release"]],
+    [["acquire_r", "upgrade", "release"], ["acquire_r", "upgrade", "release"], ["acquire_w", "release"]],
+    [["acquire_r", "upgrade", "downgrade", "release"], ["acquire_r", "upgrade", "release"], ["try_r", "release"]],
+    [["acquire_w", "downgrade", "upgrade", "release"], ["acquire_r", "upgrade", "release"]],
+]
+
+
+def explore_model(ck):
+    """exhaustive exploration of the Lean node-protocol model for small configurations (all schedules): exclusion, no bad pointer, no stuck
+    state (= no lost hand-off), and — without upgrade_to_writer — every clause of the proved invariant.  A search aid, not a proof: it covers
+    the upgrade paths (for which the theorems are partial) and progress (for which there is no theorem) on these configurations only."""
+    cfgs = EXPLORE_QUICK if ck.tier == "quick" else EXPLORE_THOROUGH
+    bad, total = [], 0
+    for sc in cfgs:
+        out = drv("c08qrwx", "reset\n" + prog_text(sc) + "explore %d\n" % (400000 if ck.tier == "quick" else 3000000), timeout=1500)
+        res = out[-1]
+        m = re.search(r"states=(\d+)", res)
+        total += int(m.group(1)) if m else 0
+        if not (res.startswith("ok ") or res.startswith("limit ")):
+            bad.append((sc, res))
+    ck.evaluations += total
+    ck.extra["model_states_explored"] = total
+    ck.oblige("model:queuing_rw_mutex every reachable state of the node-protocol model for %d small configurations (all schedules, incl. upgrade_to_writer): "
+              "exclusion, no bad pointer, no stuck state, invariant clauses" % len(cfgs), "correspondence", not bad,
+              "" if not bad else "%s | programs %s" % (bad[0][1][:600], bad[0][0]))
+    if bad:
+        sc, res = bad[0]
+        ck.counterexample("queuing_rw_mutex:model:" + res.split(" states=")[0].replace(" ", "-"), "the node-protocol MODEL reaches a bad state: %s" % res[:300],
+                          {"engine": "model-exploration", "lock": "queuing_rw_mutex", "scenario": sc, "model_result": res})
 
 
 def run(ck):
@@ -480,8 +815,13 @@ def run(ck):
         "queuing_rw_mutex: PARTIAL — only the specification machine QRwSpec is proved (safety, queue order, truthful upgrade, atomic downgrade); "
         "the node protocol of queuing_rw_mutex.cpp (my_prev/my_next/my_state/my_going/internal locks) is NOT modelled; the implementation is "
         "tied to the spec by validating its holder-bookkeeping event log on the explored schedules only",
-        "speculative_spin_mutex / speculative_spin_rw_mutex: this machine has no RTM (speculation_enabled() is false), so only the fall-back "
-        "path is exercised, with the monitors; transactional execution is NOT modelled",
+        "speculative_spin_rw_mutex (rtm_rw_mutex): proved on the model `Rtm` = the access-level spin_rw_mutex model + write_flag on the REAL paths + an "
+        "ABSTRACT hardware transaction on the speculative paths (a transaction subscribes to the word it read inside the transaction and is aborted "
+        "by any later write to it, by its own explicit abort, or spontaneously); the real paths are replayed access by access with speculation switched "
+        "off in the harness; the speculative paths cannot be replayed (a transaction does not survive a scheduling point): what the model assumes about "
+        "them is re-extracted from the source text on every run (rtm_source_obligations); RTM's own guarantees (conflict detection on the read set, "
+        "atomic commit) are trusted",
+        "speculative_spin_mutex (rtm_mutex): real path replayed on the spin_mutex model; speculative path only through the source-text obligations",
         "TSO store-buffer delays are not explored (the shim serialises accesses: sequentially consistent interleavings); release/acquire "
         "visibility rests on the regenerated memory-order table (rw_orders_publish: every releasing access is release-or-stronger, every "
         "acquiring access acquire-or-stronger, on the same variable) plus the C++11 / x86-TSO mapping of those orders",
@@ -493,17 +833,23 @@ def run(ck):
     exes = {name: fam[1]() for name, fam in FAMILIES.items()}
     spin = gen(ck, exes)
     ck.lean_stage()
+    explore_model(ck)
     for name in FAMILIES:
         run_family(ck, name, exes[name], spin)
 
 
 def replay(ck, obj):
     r = obj["replay"]
+    if r.get("engine") == "model-exploration":
+        out = drv("c08qrwx", "reset\n" + prog_text(r["scenario"]) + "explore 3000000\n", timeout=1500)
+        print(out[-1])
+        return 0 if out[-1].startswith(("ok ", "limit ")) else 1
     exe = FAMILIES[r["lock"]][1]()
+    env = dict(os.environ, C08_NOSPEC="1") if FAMILIES[r["lock"]][5] in ("rtm", "rtmmx") and r.get("env", "nospec") == "nospec" else None
     if r.get("rerun"):       # the harness died before it could print the schedule: re-run the seeded enumeration that led to it
-        rc, out, err = sh([exe] + r["rerun"], input=prog_text(r["scenario"]), timeout=900)
+        rc, out, err = sh([exe] + r["rerun"], input=prog_text(r["scenario"]), timeout=900, env=env)
     else:
-        rc, out, err = sh([exe, "replay", ",".join(r["schedule"])], input=prog_text(r["scenario"]), timeout=300)
+        rc, out, err = sh([exe, "replay", ",".join(r["schedule"])], input=prog_text(r["scenario"]), timeout=300, env=env)
     print(out[-3000:])
     print("harness exit status %d" % rc)
     return 0 if rc == 0 else 1
